@@ -199,6 +199,149 @@ def model_text(pid, stats, term, work, tag):
     return out[:6000]
 
 
+# ---------------------------------------------------------------- source ties
+# A property whose model functions are ALSO produced from the Go text by
+# tools/go2coq (notes/SOURCE_TIE.md).  On every run the translator is run on the
+# repository under test; the result is compared with the committed generated file
+# (identical: the compiled tie theorems speak about this source text), else the
+# tie proofs are re-run against the fresh translation (re-proved), else the tie is
+# broken (recorded; and the fresh translation, if it compiles, is evaluated on the
+# run's cases against the implementation's observed output).
+SOURCE_TIES = {
+    "C05": {
+        "targets": ["csv/csv.go:csvEscape", "csv/csv.go:emitRow", "csv/csv.go:RenderTo"],
+        "generated": "Generated/CsvSrc.v",
+        "proofs": ["Proofs/CsvSrcTie.v"],
+        "theorems": ["c05_source_is_model", "c05_source_roundtrip", "c05_source_total"],
+        # SrcTie_case : <the run's case type> -> N, bit 0 = the translated source
+        # disagrees with what the implementation returned
+        "eval": """From Tab Require Import Run.Glue Run.C05Run Base.GoSem.
+From SrcTie Require Import Generated.CsvSrc.
+Definition src_render_string (v : view) : fres (list N) :=
+  match src_RenderTo v with
+  | (ws, Done (Ok _)) => Done (Ok (payloads ws))
+  | (_, Done Err) => Done Err
+  | (_, Done Panic) => Done Panic
+  | (_, OutOfFuel) => OutOfFuel
+  end.
+Definition fres_eqb (a : fres (list N)) (b : res (list N)) : bool :=
+  match a with Done r => res_eqb bytes_eqb r b | OutOfFuel => false end.
+Definition SrcTie_case (c : c05session) : N :=
+  code (C05s_each (fun v obs => fres_eqb (src_render_string v) obs) c) true.
+""",
+    },
+    "C08": {
+        "targets": ["markdown/markdown.go:mdCellEscape"],
+        "generated": "Generated/MarkdownSrc.v",
+        "proofs": ["Proofs/MarkdownSrcTie.v"],
+        "theorems": ["c08_source_is_model", "c08_source_neutral"],
+        "eval": None,     # no evaluation glue: a broken tie is recorded, the hand model and the correspondence decide
+    },
+}
+TIE_LP = "SrcTie"    # logical path of the fresh copies
+
+
+def first_coq_error(out):
+    lines = out.splitlines()
+    for i, ln in enumerate(lines):
+        if ln.startswith("Error"):
+            where = ""
+            for prev in reversed(lines[:i]):
+                m = re.match(r'File "(.*?)", line (\d+)', prev)
+                if m:
+                    where = "%s:%s: " % (os.path.basename(m.group(1)), m.group(2))
+                    break
+            msg = [x.strip() for x in [ln[len("Error:"):]] + lines[i + 1:] if x.strip()]
+            if msg and msg[0].startswith("In environment"):
+                # skip the printed proof context
+                keep = [k for k, x in enumerate(msg) if re.match(r"(Unable|The term|Found|No |Tactic|Cannot|Not |Illegal|The reference|Ltac|Anomaly)", x)]
+                msg = msg[keep[0]:] if keep else msg
+            return (where + " ".join(msg[:4]))[:300]
+    return (lines[-1] if lines else "no output")[:300]
+
+
+def tie_coqc(tdir, vfile):
+    return run(["timeout", "300", "coqc", "-R", COQ, "Tab", "-R", tdir, TIE_LP, vfile], cwd=tdir)
+
+
+def source_tie(pid, repo, work):
+    tie = SOURCE_TIES.get(pid)
+    if tie is None:
+        return None
+    t0 = time.time()
+    tdir = os.path.join(work, "srctie")
+    gen = os.path.join(tdir, tie["generated"])
+    os.makedirs(os.path.dirname(gen), exist_ok=True)
+    res = {"status": None, "targets": tie["targets"], "committed": "coq/" + tie["generated"], "proofs": tie["proofs"],
+           "theorems": tie["theorems"], "translator": "tools/go2coq", "dir": tdir, "compiles": False}
+    binp = os.path.join(work, "go2coq")
+    r = run(["go", "build", "-o", binp, "."], cwd=os.path.join(VERIF, "tools", "go2coq"), env=GOENV)
+    if r.returncode != 0:
+        print(r.stdout[-2000:])
+        die("tools/go2coq does not build")
+    r = run([binp, "-repo", repo, "-o", gen] + tie["targets"], env=GOENV)
+    if r.returncode == 3:
+        un = [l for l in r.stdout.splitlines() if l.startswith("UNSUPPORTED")]
+        res["status"] = "broken: " + (un[0] if un else "UNSUPPORTED")
+    elif r.returncode != 0:
+        res["status"] = "broken: translator: " + (r.stdout.strip().splitlines() or ["rc=%d" % r.returncode])[-1][:300]
+    elif open(gen, "rb").read() == open(os.path.join(COQ, tie["generated"]), "rb").read():
+        res["status"] = "identical"
+        res["compiles"] = True
+    else:
+        rr = tie_coqc(tdir, gen)
+        if rr.returncode != 0:
+            res["status"] = "broken: the translation does not compile: " + first_coq_error(rr.stdout)
+        else:
+            res["compiles"] = True
+            res["status"] = "re-proved"
+            for rel in tie["proofs"]:
+                dst = os.path.join(tdir, rel)
+                os.makedirs(os.path.dirname(dst), exist_ok=True)
+                txt = open(os.path.join(COQ, rel)).read()
+                mod = tie["generated"][:-2].replace("/", ".")
+                txt = re.sub(r"From Tab Require Import %s\." % re.escape(mod), "From %s Require Import %s." % (TIE_LP, mod), txt)
+                open(dst, "w").write(txt)
+                rr = tie_coqc(tdir, dst)
+                if rr.returncode != 0:
+                    res["status"] = "broken: " + ("timeout (300 s) in " + rel if rr.returncode == 124 else first_coq_error(rr.stdout))
+                    break
+    res["seconds"] = round(time.time() - t0, 2)
+    return res
+
+
+def source_eval(pid, tres, outdir, stats):
+    """the tie is broken but the fresh translation compiles: run IT on this run's cases
+    against the implementation's observed output; returns (failing [(index, 1)], note)"""
+    tie, tdir = SOURCE_TIES[pid], tres["dir"]
+    if not tie.get("eval") or not tres["compiles"]:
+        return [], "not evaluated (the translation does not compile)"
+    if tres["status"] == "identical":
+        gen = os.path.join(tdir, tie["generated"])
+        if not os.path.exists(gen + "o") and tie_coqc(tdir, gen).returncode != 0:
+            return [], "not evaluated"
+    ev = os.path.join(tdir, "SrcEval.v")
+    open(ev, "w").write(tie["eval"])
+    r = tie_coqc(tdir, ev)
+    if r.returncode != 0:
+        return [], "not evaluated (the evaluation glue does not fit the translation: %s)" % first_coq_error(r.stdout)
+    failing, n = [], 0
+    for k, shard in enumerate(sorted(glob.glob(os.path.join(outdir, "cases_*.v")))):
+        txt = open(shard).read()
+        new = txt.replace("(map %s cases)" % stats["case_fn"], "(map SrcTie_case cases)")
+        if new == txt:
+            return [], "not evaluated (unexpected shard layout)"
+        f = os.path.join(tdir, "eval_%03d.v" % k)
+        open(f, "w").write("From %s Require Import SrcEval.\n" % TIE_LP + new)
+        r = tie_coqc(tdir, f)
+        fl = parse_failing(r.stdout) if r.returncode == 0 else None
+        if fl is None:
+            return [], "not evaluated (shard %d: %s)" % (k, first_coq_error(r.stdout))
+        failing += [(k * stats["per_shard"] + i, 1) for i, c in fl if c & 1]
+        n += 1
+    return failing, "the translated source was run on the %d cases of this run: %d disagree with the implementation" % (stats["evaluations"], len(failing))
+
+
 # ---------------------------------------------------------------- source fingerprint
 
 def source_fingerprint(repo):
@@ -294,6 +437,7 @@ def check(a, pid, tier, work, t0):
         print(log[-3000:])
         die("harness does not build against %s" % repo)
 
+    tres = source_tie(pid, repo, work) if not a.replay else None
     outdir = os.path.join(work, "out")
     if a.replay:
         rp = json.load(open(a.replay))
@@ -335,6 +479,14 @@ def check(a, pid, tier, work, t0):
             a.seed = base_seed + k
             if failing or os.path.exists(os.path.join(od, "crashes.json")):
                 break
+    if tres is not None and tres["status"].startswith("broken"):
+        sfl, note = source_eval(pid, tres, outdir, stats)
+        tres["evaluation"] = note
+        tres["mismatches"] = len(sfl)
+        merged = dict(failing)
+        for i, c in sfl:
+            merged[i] = merged.get(i, 0) | c
+        failing = sorted(merged.items())
     cases = json.load(open(os.path.join(outdir, "cases.json")))
     mach = [(i, c) for i, c in failing if c & 4]
     if mach:
@@ -527,11 +679,14 @@ def check(a, pid, tier, work, t0):
             "samples": samples,
             "known_findings_seen": {k: {"what": v[0], "cases": v[1]} for k, v in known_hits.items()},
             "coqchk": coqchk if coqchk is not None else "thorough tier only",
+            "source_tie": ({k: v for k, v in tres.items() if k != "dir"} if tres is not None else "none for this property"),
         },
         "assumptions": (stats.get("assumptions") or []) + [
             "the theorems are about a hand-written Gallina model; its agreement with the Go code is established only on the cases this run executed (correspondence_mismatches above)",
             "user-supplied methods and callbacks are total and do what the harness's test doubles do (DESIGN.md section 13)",
-        ],
+        ] + ([] if tres is None else [
+            "source tie (%s): the functions %s are ALSO translated from the Go text of the repository under test by tools/go2coq on this run; status '%s' (identical = the compiled theorems %s hold for exactly this source text; re-proved = the tie proofs were re-run against the fresh translation; broken = they were not). Trusted for that tie: the translator, the combinators of coq/Base/GoSem.v, the table interface listed in the generated file's header (notes/SOURCE_TIE.md)"
+            % (tres["committed"], ", ".join(tres["targets"]), tres["status"].split(":")[0], ", ".join(tres["theorems"]))]),
         "wall_s": round(wall, 2),
         "violations": len(violations),
     }
@@ -539,6 +694,8 @@ def check(a, pid, tier, work, t0):
         os.makedirs(os.path.join(VERIF, "evidence"), exist_ok=True)
         json.dump(ev, open(os.path.join(VERIF, "evidence", pid + ".json"), "w"), indent=1)
 
+    if tres is not None:
+        print("SOURCE-TIE property=%s status=%s%s" % (pid, tres["status"], (" [%s]" % tres["evaluation"]) if tres.get("evaluation") else ""))
     for sig, (desc, n) in sorted(known_hits.items()):
         print("KNOWN-FINDING: property=%s sig=%s %s (%d cases this run)" % (pid, sig, desc, n))
     print("%s %s: %d cases (%d distinct non-trivial), %d/%d theorems closed, %d model/impl mismatches, %d oracle rejections, %.1fs"
